@@ -96,6 +96,34 @@ func c02Case(r *obs.Run, i int) {
 			}
 			data := append([]byte(nil), cw.buf.Bytes()...)
 			w["emitted"] = string(data)
+			for b := 0; b < len(data); b++ { // every byte offset as the point where the underlying writer starts failing
+				if len(data) > 200 && b > 2 && b < len(data)-1 && rng.Intn(len(data)/40) != 0 {
+					continue
+				}
+				lw := &limitWriter{budget: b}
+				fbw, _ := bed.NewWriter(lw, m)
+				sawErr := false
+				for k, f := range recs {
+					before := lw.got
+					nn, err := fbw.Write(f)
+					if nn != lw.got-before {
+						w["write_fault_after_bytes"] = b
+						fail("byte-count", fmt.Sprintf("underlying writer fails after %d bytes: bed Write of record %d returned n=%d, err=%v, but %d of its bytes were accepted", b, k, nn, err, lw.got-before))
+						return
+					}
+					if err != nil {
+						sawErr = true
+						break
+					}
+				}
+				if !sawErr {
+					w["write_fault_after_bytes"] = b
+					fail("write-error-hidden", fmt.Sprintf("underlying writer failed after %d of %d bytes and no bed Write returned an error", b, len(data)))
+					return
+				}
+				r.Count("write_fault_points", 1)
+			}
+			delete(w, "write_fault_after_bytes")
 			br, err := bed.NewReader(newSrc(rng, data), m)
 			if err != nil {
 				fail("read-error", "NewReader: "+err.Error())
@@ -176,9 +204,12 @@ func c02Case(r *obs.Run, i int) {
 	var items []item
 	var desc []string
 	curType := feat.Undefined
-	write := func(what string, f func() (int, error)) bool {
+	var ops []func(*gff.Writer) (int, error)
+	var opNames []string
+	write := func(what string, f func(*gff.Writer) (int, error)) bool {
+		ops, opNames = append(ops, f), append(opNames, what)
 		before := cw.buf.Len()
-		nn, err := f()
+		nn, err := f(gw)
 		if err != nil {
 			fail("write-error", what+": "+err.Error())
 			return false
@@ -197,7 +228,7 @@ func c02Case(r *obs.Run, i int) {
 			f := genGFF(rng)
 			items = append(items, item{kind: "feature", f: f})
 			desc = append(desc, "feature "+gffBrief(f))
-			if !write("Write(feature)", func() (int, error) { return gw.Write(f) }) {
+			if !write("Write(feature)", func(gw *gff.Writer) (int, error) { return gw.Write(f) }) {
 				return
 			}
 			if f.FeatScore != nil || len(f.FeatAttributes) > 0 || f.Comments != "" {
@@ -211,13 +242,13 @@ func c02Case(r *obs.Run, i int) {
 				curType = feat.Moltype(rng.Intn(4) - 1)
 				t := curType
 				if rng.Intn(2) == 0 {
-					if !write("WriteMetaData(moltype)", func() (int, error) { return gw.WriteMetaData(t) }) {
+					if !write("WriteMetaData(moltype)", func(gw *gff.Writer) (int, error) { return gw.WriteMetaData(t) }) {
 						return
 					}
 					desc = append(desc, "##Type "+t.String())
 				} else {
 					nm := genNoSpace(rng)
-					if !write("WriteMetaData(Sequence)", func() (int, error) { return gw.WriteMetaData(gff.Sequence{SeqName: nm, Type: t}) }) {
+					if !write("WriteMetaData(Sequence)", func(gw *gff.Writer) (int, error) { return gw.WriteMetaData(gff.Sequence{SeqName: nm, Type: t}) }) {
 						return
 					}
 					desc = append(desc, "##Type "+t.String()+" "+nm)
@@ -230,7 +261,7 @@ func c02Case(r *obs.Run, i int) {
 			reg := &gff.Region{Sequence: gff.Sequence{SeqName: genNoSpace(rng), Type: curType}, RegionStart: s, RegionEnd: s + 1 + rng.Intn(100000)}
 			items = append(items, item{kind: "region", reg: reg})
 			desc = append(desc, fmt.Sprintf("region %q type %v [%d,%d)", reg.SeqName, reg.Type, reg.RegionStart, reg.RegionEnd))
-			if !write("Write(region)", func() (int, error) { return gw.Write(reg) }) {
+			if !write("Write(region)", func(gw *gff.Writer) (int, error) { return gw.Write(reg) }) {
 				return
 			}
 			nontrivial = true
@@ -242,14 +273,14 @@ func c02Case(r *obs.Run, i int) {
 			}
 			items = append(items, item{kind: "sequence", sq: sq})
 			desc = append(desc, fmt.Sprintf("sequence %q desc %q %d letters of %v", sq.ID, sq.Desc, sq.Len(), al.Moltype()))
-			if !write("Write(sequence)", func() (int, error) { return gw.Write(sq) }) {
+			if !write("Write(sequence)", func(gw *gff.Writer) (int, error) { return gw.Write(sq) }) {
 				return
 			}
 			nontrivial = true
 		default:
 			c := genField(rng, true)
 			desc = append(desc, "comment "+c)
-			if !write("WriteComment", func() (int, error) { return gw.WriteComment(c) }) {
+			if !write("WriteComment", func(gw *gff.Writer) (int, error) { return gw.WriteComment(c) }) {
 				return
 			}
 		}
@@ -260,6 +291,51 @@ func c02Case(r *obs.Run, i int) {
 	w["width"] = width
 	w["items"] = desc
 	w["emitted"] = string(data)
+
+	// the same calls again through a writer that accepts only the first B bytes and then fails with a short write:
+	// the counts returned, the failing call's included, must add up to what the writer accepted
+	{
+		var budgets []int
+		if len(data) <= 200 {
+			for b := 0; b < len(data); b++ {
+				budgets = append(budgets, b)
+			}
+		} else {
+			budgets = []int{0, 1, len(data) - 1}
+			for k := 0; k < 9; k++ {
+				budgets = append(budgets, rng.Intn(len(data)))
+			}
+			for k := 0; k < len(data)-1 && len(budgets) < 40; k++ { // around tabs and line ends: where one formatted piece ends
+				if (data[k] == '\n' || data[k] == '\t') && rng.Intn(6) == 0 {
+					budgets = append(budgets, k, k+1)
+				}
+			}
+		}
+		for _, b := range budgets {
+			lw := &limitWriter{budget: b}
+			fgw := gff.NewWriter(lw, width, header)
+			sawErr := false
+			for k, op := range ops {
+				before := lw.got
+				nn, err := op(fgw)
+				if nn != lw.got-before {
+					w["write_fault_after_bytes"] = b
+					fail("byte-count", fmt.Sprintf("underlying writer fails after %d bytes: gff %s (call %d) returned n=%d, err=%v, but %d of its bytes were accepted", b, opNames[k], k, nn, err, lw.got-before))
+					return
+				}
+				if err != nil {
+					sawErr = true
+					break
+				}
+			}
+			if !sawErr {
+				w["write_fault_after_bytes"] = b
+				fail("write-error-hidden", fmt.Sprintf("underlying writer failed after %d of %d bytes and no gff write returned an error", b, len(data)))
+				return
+			}
+			r.Count("write_fault_points", 1)
+		}
+	}
 
 	// text-level coordinate convention, on my own split of the emitted lines
 	fi := 0
